@@ -1096,7 +1096,7 @@ def run(ctx):
                 "use the same component names in different stages (also the condition's); 1-2 outside consumers using "
                 ":ref/:output/:copy, optionally one consumer of a looped component of every document, 1-2 using "
                 ":loopref.  Operations: every document l instantiates k_l further iterations (quick: sum <= 14 with "
-                "about a third of the cases at some k_l >= 10, thorough: sum <= 34, k_l <= 25), documents interleaved "
+                "about a third of the cases at some k_l >= 10, thorough: sum <= 30, k_l <= 25), documents interleaved "
                 "sequentially in document order, in reverse order or randomly (so that an earlier-listed document is "
                 "behind / ahead of a later one); in 65% of the cases the iterations are instantiated by a real "
                 "Controller (Controller._instantiate_next_dowhile_iteration) and 0-5 read operations (status report = "
@@ -1144,7 +1144,7 @@ def run(ctx):
         n, budget = 44, 14
     else:
         ks = [0, 1, 2, 4, 6, 9, 10, 11, 12, 13, 15, 19, 20, 21, 22, 25, 25]
-        n, budget = 320, 34
+        n, budget = 250, 30
     for _ in range(n):
         cases.append(("generated", gen_case(rng, budget, ks)))
     check_cases(ctx, cases)
